@@ -5,7 +5,7 @@
 
 Every curve is y^2 = x^3 + a*x + b over a prime p < 2^16 with a base point G of PRIME order n
 and cofactor h in {1, 2, 4}.  The search is deterministic (first (a, b) in lexicographic order
-that satisfies the wanted predicate, G = h * (first point in (x, y) order whose multiple is not O)).
+that satisfies the wanted predicate, G = h * P for the first point P, starting one third into the (x, y)-ordered point list, with h * P != O).
 Nothing here is trusted by the checks: tc.h re-derives the whole group of every curve by brute
 force at check time (point set from the curve equation, orders by repeated addition, primality
 by trial division) and refuses to run when a table entry is wrong.
@@ -73,8 +73,9 @@ def count(p, a, b, sq):
 def find(p, want_h, pred=None, a_list=None, n_pred=None, torsion=None):
     """first (a, b) with #E = h*n, n prime (n != p), non singular, predicate holds."""
     sq = sqrt_table(p)
-    for a in (a_list if a_list is not None else range(p)):
-        for b in range(p):
+    # generic searches start at a = 1, b = 1: a = 0 / b = 0 curves have only a handful of possible orders
+    for a in (a_list if a_list is not None else range(1, p)):
+        for b in range(1, p):
             if (4 * a * a * a + 27 * b * b) % p == 0:
                 continue
             N = count(p, a, b, sq)
@@ -91,7 +92,7 @@ def find(p, want_h, pred=None, a_list=None, n_pred=None, torsion=None):
                     continue
             if pred is not None and not pred(p, a, b, n, pts):
                 continue
-            for P in pts:
+            for P in pts[len(pts) // 3:] + pts[:len(pts) // 3]:
                 G = mul_fast(want_h, P, a, p)
                 if G is not None:
                     assert mul_fast(n, G, a, p) is None
